@@ -36,6 +36,8 @@ def _product(a: str, b: str):
 def run(ctx):
     repo = ctx.repo
     _pow_carries_phase(ctx, repo)
+    _value_operators_do_not_alias(ctx, repo)
+    _pauli_combination_power(ctx, repo)
     from . import shared as _shared
     _shared.empty_decomposition_rule(ctx, 'C14.o')
     ctx.decided.append('C14.o a decomposition path that hands back no operation has consulted a phase-carrying field (an identity claim is not made blindly)')
@@ -828,3 +830,76 @@ def _pow_carries_phase(ctx, repo):
                f'`return {txt[:70]}` ignores `{ph}`, the phase of the coefficient: (-X)**3 comes out as X, (1j*X)**2 as the identity', ci.mod.rel, r.lineno)
     if k == 0:
         raise AnalysisError('PauliString.__pow__: no return after the polar split')
+
+
+def _value_operators_do_not_alias(ctx, repo, rid='C14.p'):
+    """Operators of the dense Pauli string base class that produce a new value do not hand the new object the receiver's own mask array."""
+    ci = repo.cls('cirq.ops.dense_pauli_string.BaseDensePauliString')
+    ctx.decided.append(f'{rid} value-producing operators of BaseDensePauliString (-m, c * m, m ** k, abs(m)) give the result a fresh mask array (the mutable subclass keeps the array it is given)')
+    ctx.rule(rid, 'a new value owns its data: in the non-in-place operator methods of BaseDensePauliString, a constructor call of the receiver\'s own class (type(self)(...), or a local '
+             'bound to type(self)) never receives the bare `self.pauli_mask` - MutableDensePauliString keeps the array it is given, so `n = -m; m *= Z` would change n as well', floor=3, style='EFF')
+    n = 0
+    operators = {mn for mn in ci.methods if mn.startswith('__') and mn.endswith('__') and not mn.startswith('__i') and mn not in ('__init__', '__getitem__', '__iter__')}
+    # private helpers the operators delegate to (an extracted `_times_scalar`) are operators' code too
+    helpers = {c.func.attr for mn in operators for c in ast.walk(ci.methods[mn]) if isinstance(c, ast.Call) and isinstance(c.func, ast.Attribute)
+               and isinstance(c.func.value, ast.Name) and c.func.value.id == 'self' and c.func.attr in ci.methods and c.func.attr.startswith('_') and not c.func.attr.startswith('__')}
+    for mn, fn in sorted(ci.methods.items()):
+        if mn not in operators | helpers:
+            continue
+        cls_locals = {a.targets[0].id for a in ast.walk(fn) if isinstance(a, ast.Assign) and len(a.targets) == 1 and isinstance(a.targets[0], ast.Name)
+                      and ast.unparse(a.value) == 'type(self)'}
+        for c in ast.walk(fn):
+            if not isinstance(c, ast.Call):
+                continue
+            f = ast.unparse(c.func)
+            if not (f == 'type(self)' or f in cls_locals):
+                continue
+            for k in c.keywords:
+                if k.arg != 'pauli_mask':
+                    continue
+                n += 1
+                bare = ast.unparse(k.value) in ('self.pauli_mask', 'self._pauli_mask')
+                ctx.ob(rid, f'{ci.qual}.{mn}:pauli_mask@{c.lineno - fn.lineno}', not bare, '' if not bare else
+                       f'`{ast.unparse(c)[:80]}` gives the new object the receiver\'s own array: for the mutable subclass both now change together', ci.mod.rel, c.lineno)
+    if n == 0:
+        raise AnalysisError(f'{rid}: no construction of the receiver\'s class in an operator of BaseDensePauliString')
+
+
+def _pauli_combination_power(ctx, repo, rid='C14.q'):
+    """pow_pauli_combination interpreted on a grid of coefficients against the matrix power."""
+    m = repo.module('cirq-core/cirq/linalg/operator_spaces.py')
+    fn = m.defs.get('pow_pauli_combination')
+    ctx.decided.append(f'{rid} pow_pauli_combination(ai, ax, ay, az, n) are the Pauli coefficients of (ai I + ax X + ay Y + az Z)**n on a grid incl. complex coefficients with (ai+v)**n == (ai-v)**n')
+    ctx.rule(rid, 'powers of a one-qubit Pauli combination: interpreting pow_pauli_combination on a grid of real and complex coefficients and exponents 0..6, the returned coefficients '
+             'rebuild the n-th matrix power of ai I + ax X + ay Y + az Z - in particular where (ai + v)**n == (ai - v)**n although v != 0 (I + iX to the 4th power is -4 I)', floor=40, style='FDX')
+    if not isinstance(fn, ast.FunctionDef):
+        raise AnalysisError('operator_spaces.pow_pauli_combination vanished')
+    P = [np.eye(2), np.array([[0, 1], [1, 0]]), np.array([[0, -1j], [1j, 0]]), np.array([[1, 0], [0, -1]])]
+    params = [a.arg for a in fn.args.args]
+
+    def call_hook(call, it):
+        if ast.unparse(call.func) == 'isinstance':
+            return False      # the probes are numbers, not sympy expressions
+        f = call.func
+        if isinstance(f, ast.Attribute) and f.attr == 'item' and not call.args:
+            v = it.ev(f.value)
+            return v.item() if hasattr(v, 'item') else v
+        return NotImplemented
+    grid = [(1, 1j, 0, 0), (1, 0, 0, 0), (0, 1, 0, 0), (2, 0.5, -0.25, 1), (0, 1, 1j, 0), (1j, 1, 1, 1), (0.5, 0, 1j, 1), (1, 1, 0, 1j), (-1, 0, 0, 2j), (0, 0, 0, 0), (3, 0, 0, 1e-9)]
+    for coeffs in grid:
+        for n_ in range(0, 7):
+            it = fdx.NumInterp(dict(zip(params, list(coeffs) + [n_])), call_hook=call_hook)
+            try:
+                got = it.call(fn)
+            except (fdx.Unsupported, fdx.Raised) as ex:
+                raise AnalysisError(f'cannot interpret pow_pauli_combination: {ex}')
+            mat = sum(c * p_ for c, p_ in zip(coeffs, P))
+            want = np.linalg.matrix_power(mat, n_)
+            try:
+                have = sum(complex(c) * p_ for c, p_ in zip(got, P))
+                ok = np.allclose(have, want, atol=1e-7 * max(1.0, float(np.abs(want).max())))
+            except Exception:
+                ok = False
+            ctx.ob(rid, f'cirq.linalg.operator_spaces.pow_pauli_combination:{coeffs}**{n_}', ok, '' if ok else
+                   f'({coeffs[0]} I + {coeffs[1]} X + {coeffs[2]} Y + {coeffs[3]} Z)**{n_}: returned coefficients {tuple(got)} do not rebuild the matrix power', m.rel, fn.lineno,
+                   construct='cirq.linalg.operator_spaces.pow_pauli_combination')
